@@ -72,7 +72,10 @@ def unToken (w : String) : String :=
 def judgeDiag (arg impl : String) : String :=
   if impl.startsWith "crash" || impl == "timeout" then "fail crash" else
   match parseInput arg with
-  | none => "skip"           -- no fault description: correspondence only
+  | none =>
+    -- no fault description: correspondence only — except that an exception which is no `InputError` (it carries no
+    -- position at all) is never a diagnostic that points at the offending command
+    if ((MmlD.fieldOf impl "what").map (·.startsWith "foreign:")) == some true then "fail foreign_exception" else "skip"
   | some i =>
     match MmlD.fieldOf impl "stage", MmlD.fieldOf impl "what" with
     | some stage, some what =>
